@@ -35,6 +35,8 @@ pub struct DevState {
     pub faults_fired: u64,
     /// label of the operation that was faulted
     pub fault_kind: Option<&'static str>,
+    /// io::ErrorKind of the injected error
+    pub fault_errkind: io::ErrorKind,
     pub chunk: Chunk,
     pub ctx: Option<Ctx>,
     pub transfers: u64,
@@ -62,6 +64,7 @@ impl Dev {
                 fault_at: None,
                 faults_fired: 0,
                 fault_kind: None,
+                fault_errkind: io::ErrorKind::Other,
                 chunk: Chunk::Full,
                 ctx: None,
                 transfers: 0,
@@ -97,7 +100,7 @@ impl Dev {
         if s.fault_at == Some(i) {
             s.faults_fired += 1;
             s.fault_kind = Some(kind);
-            return Err(io::Error::new(io::ErrorKind::Other, format!("injected device fault at op {i} ({kind})")));
+            return Err(io::Error::new(s.fault_errkind, format!("injected device fault at op {i} ({kind})")));
         }
         Ok(())
     }
